@@ -44,7 +44,10 @@ def instances(tier):
                 add(3, 'FFF', [a, b]); add(3, 'RRF', [a, b])
     hist = [[], ['spinodal[extrap]'], ['chi[curve]', 'flip:totalCorr'], ['structure_factor[norm]', 'second_virial[k0]']] + ([['solvation[PY]', 'pair_correlation']] if tier == 'thorough' else [])
     for h in hist:
-        for op in (CALC_OPS if (tier == 'thorough' or not h) else ['structure_factor[raw]', 'spinodal[extrap]', 'pair_correlation', 'chi[curve]']):
+        heavy = bool(h) and h[0].startswith('solvation')      # log of huge arguments: 5 min per instance
+        for op in (CALC_OPS if ((tier == 'thorough' and not heavy) or not h) else ['structure_factor[raw]', 'spinodal[extrap]', 'pair_correlation', 'chi[curve]']):
+            if tier == 'thorough' and h and op.startswith('solvation'):
+                continue
             out.append(dict(name='resolve[r2,%s|%s]' % ('>'.join(h) or '-', op), fn='resolve', args=dict(rank=2, hist=h, op=op), query_timeout_ms=120000, timeout=1500))
     return out
 
